@@ -11,9 +11,13 @@ pub fn absolute<T: AsRef<Path>>(path: T) -> Result<PathBuf, E> {
     for comp in path.components() {
         match comp {
             C::CurDir => (),
-            C::ParentDir => {
-                out.pop().ok_or(E::CannotBeExported(ERROR_MESSAGE))?;
-            }
+            C::ParentDir => match out.pop() {
+                // `..` can neither pop from an empty path, nor climb above the filesystem root
+                None | Some(C::RootDir | C::Prefix(_)) => {
+                    return Err(E::CannotBeExported(ERROR_MESSAGE))
+                }
+                Some(_) => (),
+            },
             comp => out.push(comp),
         }
     }
